@@ -64,6 +64,10 @@ def gen_pipeline(rnd):
         y = [v * s for v in y]
     if rnd.random() < 0.1:
         x = [v * 1e-6 for v in x]
+    elif rnd.random() < 0.2:
+        # time axes of real measurements: UNIX-epoch seconds with 5-minute (or hourly) bins - large |x| relative to the step
+        step = rnd.choice([300.0, 3600.0])
+        x = [1.7e9 + step * v for v in x]
     kw = {k: v for k, v in r["kw"].items() if k != "sampling_function_supplier"}
     if "exp" in kw and kw["exp"] < 0.2:
         kw["exp"] = 2.0
